@@ -6,6 +6,8 @@ require (
 	github.com/google/inverting-proxy v0.0.0
 	github.com/gorilla/websocket v1.5.0
 	golang.org/x/net v0.23.0
+	google.golang.org/appengine/v2 v2.0.2
+	google.golang.org/protobuf v1.33.0
 )
 
 require (
@@ -26,7 +28,6 @@ require (
 	google.golang.org/genproto/googleapis/api v0.0.0-20230525234035-dd9d682886f9 // indirect
 	google.golang.org/genproto/googleapis/rpc v0.0.0-20230525234030-28d5490b6b19 // indirect
 	google.golang.org/grpc v1.56.3 // indirect
-	google.golang.org/protobuf v1.33.0 // indirect
 )
 
 replace github.com/google/inverting-proxy => /repo
